@@ -11,42 +11,42 @@ package main
 //@ assume func partial-aftersun.cleanDir#param.parseTilePath params path
 //@   ensures ret1 == nil ==> ret0 == tileOf(path)
 
-//@ func partial-aftersun.cleanDir props C18
+//@ func partial-aftersun.cleanDir props C04 C18
 //@   requires size >= 0
-//@   call os.(*Root).Remove requires [C18] full-sibling: ok__1 && has(names, full)
-//@   call os.(*Root).Remove requires [C18] below-edge: t__1 == tileOf(trimSuffix(name__1, ".p")) && belowEdge(t__1, size)
-//@   call os.(*Root).Remove "name__2" requires [C18] is-partial: t__2 == tileOf(name__2) && t__2.W != 256
-//@   call os.(*Root).Remove "name__2" requires [C18] full-tile-nonempty: !isDirFI(fileInfoOf(root, cutBefore(name__2, ".p/"))) && sizeFI(fileInfoOf(root, cutBefore(name__2, ".p/"))) != 0
-//@   call partial-aftersun.cleanDir requires [C18] same-size: c_size == size && c_root == root
+//@   call os.(*Root).Remove requires [C04,C18] full-sibling: ok__1 && has(names, full)
+//@   call os.(*Root).Remove requires [C04,C18] below-edge: t__1 == tileOf(trimSuffix(name__1, ".p")) && belowEdge(t__1, size)
+//@   call os.(*Root).Remove "name__2" requires [C04,C18] is-partial: t__2 == tileOf(name__2) && t__2.W != 256
+//@   call os.(*Root).Remove "name__2" requires [C04,C18] full-tile-nonempty: !isDirFI(fileInfoOf(root, cutBefore(name__2, ".p/"))) && sizeFI(fileInfoOf(root, cutBefore(name__2, ".p/"))) != 0
+//@   call partial-aftersun.cleanDir requires [C04,C18] same-size: c_size == size && c_root == root
 
-//@ func partial-aftersun.overrideImmutable props C18
-//@   ensures [C18] guard: ret == nil ==> !isDirFI(fileInfoOf(root, cutBefore(name, ".p/"))) && sizeFI(fileInfoOf(root, cutBefore(name, ".p/"))) != 0
-//@   call strings.Cut requires [C18] sep: c_sep == ".p/" && c_s == name
+//@ func partial-aftersun.overrideImmutable props C04 C18
+//@   ensures [C04,C18] guard: ret == nil ==> !isDirFI(fileInfoOf(root, cutBefore(name, ".p/"))) && sizeFI(fileInfoOf(root, cutBefore(name, ".p/"))) != 0
+//@   call strings.Cut requires [C04,C18] sep: c_sep == ".p/" && c_s == name
 
 // The size every removal decision is based on: that of the checkpoint published in the directory being cleaned.
 //@ pure func publishedSize(root Ref) int
-//@ func partial-aftersun.main noreturn props C18
-//@   call partial-aftersun.cleanDir requires [C18] size-is-that-of-the-directory-being-cleaned: c_size == publishedSize(c_root) && c_root != nil
-//@   call partial-aftersun.mirroredLogSize requires [C18] mirror-directory-named-by-its-origin-hash: c_root == rootOf(pjoin(pjoin(c.Witness.LocalDirectory, "mirror"), c_originHash))
+//@ func partial-aftersun.main noreturn props C04 C18
+//@   call partial-aftersun.cleanDir requires [C04,C18] size-is-that-of-the-directory-being-cleaned: c_size == publishedSize(c_root) && c_root != nil
+//@   call partial-aftersun.mirroredLogSize requires [C04,C18] mirror-directory-named-by-its-origin-hash: c_root == rootOf(pjoin(pjoin(c.Witness.LocalDirectory, "mirror"), c_originHash))
 
-//@ func partial-aftersun.logSize props C18
-//@   call fs.ReadFile "checkpoint" requires [C18] reads-the-checkpoint-of-this-directory: c_fsys == rootFSOf(root) && c_name == "checkpoint"
+//@ func partial-aftersun.logSize props C04 C18
+//@   call fs.ReadFile "checkpoint" requires [C04,C18] reads-the-checkpoint-of-this-directory: c_fsys == rootFSOf(root) && c_name == "checkpoint"
 //@   defines ret1 == nil ==> ret0 == publishedSize(root)
-//@   ensures [C18] size-is-not-negative: ret1 == nil ==> ret0 >= 0
-//@   returns [C18] verified: ret1 == nil ==> openedBy(n, signedCheckpoint, vlist1(verifier)) && isRFCVerifier(verifier, log.Name, pubKey)
-//@   returns [C18] origin: ret1 == nil ==> checkpoint == ckptOf(n.Text) && checkpoint.Origin == log.Name && ret0 == checkpoint.N
+//@   ensures [C04,C18] size-is-not-negative: ret1 == nil ==> ret0 >= 0
+//@   returns [C04,C18] verified: ret1 == nil ==> openedBy(n, signedCheckpoint, vlist1(verifier)) && isRFCVerifier(verifier, log.Name, pubKey)
+//@   returns [C04,C18] origin: ret1 == nil ==> checkpoint == ckptOf(n.Text) && checkpoint.Origin == log.Name && ret0 == checkpoint.N
 
-//@ func partial-aftersun.mirroredLogSize props C18
-//@   call fs.ReadFile requires [C18] reads-the-checkpoint-of-this-directory: c_fsys == rootFSOf(root) && c_name == "checkpoint"
+//@ func partial-aftersun.mirroredLogSize props C04 C18
+//@   call fs.ReadFile requires [C04,C18] reads-the-checkpoint-of-this-directory: c_fsys == rootFSOf(root) && c_name == "checkpoint"
 //@   defines ret1 == nil ==> ret0 == publishedSize(root)
-//@   ensures [C18] size-is-not-negative: ret1 == nil ==> ret0 >= 0
-//@   returns [C18] origin-hash: ret1 == nil ==> originHashOf(checkpoint.Origin) == originHash && ret0 == checkpoint.N
+//@   ensures [C04,C18] size-is-not-negative: ret1 == nil ==> ret0 >= 0
+//@   returns [C04,C18] origin-hash: ret1 == nil ==> originHashOf(checkpoint.Origin) == originHash && ret0 == checkpoint.N
 
-//@ lemma [C18] L-edge: forall size int, size2 int, L int, N int :: \
+//@ lemma [C04,C18] L-edge: forall size int, size2 int, L int, N int :: \
 //@    (0 <= size && size <= size2 && L <= 6 && 0 <= N && N < size / tileSpan(L)) ==> (N+1)*tileSpan(L) <= size2
 
-//@ census [C18] remove-sites: callers os.(*Root).Remove within partial-aftersun.cleanDir in partial-aftersun
-//@ census [C18] no-os-remove: callers os.Remove within none in partial-aftersun
-//@ census [C18] no-os-removeall: callers os.RemoveAll within none in partial-aftersun
-//@ census [C18] no-root-removeall: callers os.(*Root).RemoveAll within none in partial-aftersun
-//@ census [C18] cleandir-callers: callers partial-aftersun.cleanDir within partial-aftersun.main, partial-aftersun.cleanDir in partial-aftersun
+//@ census [C04,C18] remove-sites: callers os.(*Root).Remove within partial-aftersun.cleanDir in partial-aftersun
+//@ census [C04,C18] no-os-remove: callers os.Remove within none in partial-aftersun
+//@ census [C04,C18] no-os-removeall: callers os.RemoveAll within none in partial-aftersun
+//@ census [C04,C18] no-root-removeall: callers os.(*Root).RemoveAll within none in partial-aftersun
+//@ census [C04,C18] cleandir-callers: callers partial-aftersun.cleanDir within partial-aftersun.main, partial-aftersun.cleanDir in partial-aftersun
